@@ -857,7 +857,8 @@ def run_nnxts_case(ctx, i):
 # ---------------------------------------------------------------------------------------------
 # (c) metrics
 
-METRIC_KINDS = ['avg1', 'avg2', 'avg3_py', 'avg_int', 'wf1', 'wf2', 'wf_py', 'acc_mc', 'acc_mc3', 'acc_bin', 'acc_bin2', 'multi']
+METRIC_KINDS = ['avg1', 'avg2', 'avg3_py', 'avg_int', 'wf1', 'wf2', 'wf_py', 'acc_mc', 'acc_mc3', 'acc_bin', 'acc_bin2', 'multi',
+                'avg_f16', 'wf_f16', 'avg_bigint']
 N_MAX = 6
 
 
@@ -871,6 +872,11 @@ def gen_stream(kind, nprng, n, variant):
       it['values'] = np.float32(np.round(nprng.uniform(-4, 4), 3)) if variant % 2 else np.float32(nprng.integers(-32, 32) / 8.0)
     elif kind == 'avg_int':
       it['values'] = np.int32(nprng.integers(-5, 9))
+    elif kind in ('avg_f16', 'wf_f16'):
+      # half-precision values whose batch sums leave the float16 range (all exactly representable: multiples of 32 below 32768)
+      it['values'] = (nprng.integers(500, 1000, (3,)) * 32).astype(np.float16)
+    elif kind == 'avg_bigint':
+      it['values'] = nprng.integers(2 ** 29, 2 ** 30, (2,)).astype(np.int32)
     elif kind in ('avg2', 'wf2'):
       shape = [(3,), (2, 2), (1, 4)][variant % 3]
       it['values'] = nprng.uniform(-4, 4, shape).astype(np.float32)
@@ -899,8 +905,10 @@ def gen_stream(kind, nprng, n, variant):
 
 def make_metric(kind, thr, variant):
   from flax import nnx
-  if kind in ('avg1', 'avg2', 'avg_int'):
+  if kind in ('avg1', 'avg2', 'avg_int', 'avg_f16', 'avg_bigint'):
     return nnx.metrics.Average()
+  if kind == 'wf_f16':
+    return nnx.metrics.Welford()
   if kind == 'avg3_py':
     return nnx.metrics.Average('loss')
   if kind in ('wf1', 'wf2'):
@@ -938,7 +946,7 @@ def feed(kind, metric, batch, variant, bi):
       val = jnp.asarray(stack('values'))
     metric.update(loss=val, ignored=123)
     return
-  if kind in ('avg1', 'avg2', 'avg_int', 'wf1', 'wf2'):
+  if kind in ('avg1', 'avg2', 'avg_int', 'wf1', 'wf2', 'avg_f16', 'wf_f16', 'avg_bigint'):
     metric.update(values=jnp.asarray(stack('values')))
     return
   labels = stack('labels')
@@ -976,9 +984,9 @@ def ref_stat(kind, items, thr):
     hits = np.concatenate([((np.asarray(it['logits']) >= np.float32(thr)) == (it['labels'] > 0)).ravel() for it in items])
     return float(np.mean(hits))
 
-  if kind in ('avg1', 'avg2', 'avg3_py', 'avg_int'):
+  if kind in ('avg1', 'avg2', 'avg3_py', 'avg_int', 'avg_f16', 'avg_bigint'):
     return dict(avg=avg('values'))
-  if kind in ('wf1', 'wf2', 'wf_py'):
+  if kind in ('wf1', 'wf2', 'wf_py', 'wf_f16'):
     return welford('values')
   if kind in ('acc_mc', 'acc_mc3'):
     return dict(acc=acc_mc())
@@ -993,9 +1001,9 @@ def ref_stat(kind, items, thr):
 def extract(kind, res):
   def wf(s):
     return dict(mean=s.mean, std=s.standard_deviation, sem=s.standard_error_of_mean)
-  if kind in ('avg1', 'avg2', 'avg3_py', 'avg_int'):
+  if kind in ('avg1', 'avg2', 'avg3_py', 'avg_int', 'avg_f16', 'avg_bigint'):
     return dict(avg=res)
-  if kind in ('wf1', 'wf2', 'wf_py'):
+  if kind in ('wf1', 'wf2', 'wf_py', 'wf_f16'):
     return wf(res)
   if kind in ('acc_mc', 'acc_mc3', 'acc_bin', 'acc_bin2'):
     return dict(acc=res)
@@ -1037,7 +1045,9 @@ MECH = {'avg1': 'metric.average', 'avg2': 'metric.average:multidim', 'avg3_py': 
         'avg_int': 'metric.average:int_values', 'wf1': 'metric.welford', 'wf2': 'metric.welford:multidim',
         'wf_py': 'metric.welford:python_scalars', 'acc_mc': 'metric.accuracy:multiclass',
         'acc_mc3': 'metric.accuracy:multiclass_extra_dims', 'acc_bin': 'metric.accuracy:binary',
-        'acc_bin2': 'metric.accuracy:binary_extra_dims', 'multi': 'metric.multimetric'}
+        'acc_bin2': 'metric.accuracy:binary_extra_dims', 'multi': 'metric.multimetric',
+        'avg_f16': 'metric.average:value_dtype_accumulation', 'wf_f16': 'metric.welford:value_dtype_accumulation',
+        'avg_bigint': 'metric.average:value_dtype_accumulation'}
 
 
 def run_metric_case(ctx, idx, kind, sid, comp):
